@@ -1,5 +1,1267 @@
-use crate::util::Args;
-pub fn cmd_mt(_a: &Args) -> i32 {
-    eprintln!("mt: not implemented yet");
-    2
+//! MT engine: real threads. Multi-thread tokio runtime(s), std threads for the blocking API, a
+//! heartbeat thread that measures scheduling lateness and per-round watchdogs. Same event model and
+//! the same oracles as SIM (the log's push order is consistent with real time).
+
+#![allow(deprecated)]
+
+use crate::check::{self, Meta, Mode};
+use crate::ev::*;
+use crate::sa::*;
+use crate::scen::*;
+use crate::util::*;
+use rsactor::{ActorRef, AskHandler, TellHandler};
+use std::collections::{BTreeMap, BTreeSet};
+use std::sync::atomic::{AtomicBool, AtomicU64, Ordering};
+use std::sync::{Arc, Mutex};
+use std::time::{Duration, Instant};
+
+// ---------------------------------------------------------------------------------------------
+// heartbeat
+// ---------------------------------------------------------------------------------------------
+pub struct Heartbeat {
+    stop: Arc<AtomicBool>,
+    /// maximal lateness (µs) of any beat, bucketed per 100 ms of process time
+    late: Arc<Mutex<Vec<u64>>>,
+    t0: Instant,
+}
+
+impl Heartbeat {
+    pub fn start() -> Heartbeat {
+        let stop = Arc::new(AtomicBool::new(false));
+        let late = Arc::new(Mutex::new(Vec::new()));
+        let t0 = Instant::now();
+        let (s2, l2) = (stop.clone(), late.clone());
+        std::thread::Builder::new()
+            .name("heartbeat".into())
+            .spawn(move || {
+                while !s2.load(Ordering::Relaxed) {
+                    let t = Instant::now();
+                    std::thread::sleep(Duration::from_millis(5));
+                    let lateness = t.elapsed().saturating_sub(Duration::from_millis(5)).as_micros() as u64;
+                    let bucket = (t0.elapsed().as_millis() / 100) as usize;
+                    let mut g = l2.lock().unwrap();
+                    while g.len() <= bucket {
+                        g.push(0);
+                    }
+                    if lateness > g[bucket] {
+                        g[bucket] = lateness;
+                    }
+                }
+            })
+            .unwrap();
+        Heartbeat { stop, late, t0 }
+    }
+    pub fn now_bucket(&self) -> usize {
+        (self.t0.elapsed().as_millis() / 100) as usize
+    }
+    /// maximal lateness in µs since `from_bucket`
+    pub fn max_late_since(&self, from_bucket: usize) -> u64 {
+        let g = self.late.lock().unwrap();
+        g.iter().skip(from_bucket.saturating_sub(1)).cloned().max().unwrap_or(0)
+    }
+    pub fn overall(&self) -> u64 {
+        self.late.lock().unwrap().iter().cloned().max().unwrap_or(0)
+    }
+}
+impl Drop for Heartbeat {
+    fn drop(&mut self) {
+        self.stop.store(true, Ordering::Relaxed);
+    }
+}
+
+pub const STALL_US: u64 = 250_000;
+
+// ---------------------------------------------------------------------------------------------
+// failpoints (hook H2): thread-level delays only
+// ---------------------------------------------------------------------------------------------
+pub static FP_HITS: AtomicU64 = AtomicU64::new(0);
+pub static FP_DELAYS: AtomicU64 = AtomicU64::new(0);
+static FP_LEVEL: AtomicU64 = AtomicU64::new(0);
+
+#[cfg(rsactor_verif)]
+fn failpoint(_site: &'static str) {
+    thread_local! { static X: std::cell::Cell<u64> = const { std::cell::Cell::new(0) }; }
+    FP_HITS.fetch_add(1, Ordering::Relaxed);
+    let lvl = FP_LEVEL.load(Ordering::Relaxed);
+    if lvl == 0 {
+        return;
+    }
+    let r = X.with(|x| {
+        let mut v = x.get();
+        if v == 0 {
+            v = 0x9E3779B97F4A7C15 ^ (std::thread::current().id().as_u64_compat());
+        }
+        v ^= v << 13;
+        v ^= v >> 7;
+        v ^= v << 17;
+        x.set(v);
+        v
+    });
+    match r % 16 {
+        0 | 1 => {
+            FP_DELAYS.fetch_add(1, Ordering::Relaxed);
+            for _ in 0..(r >> 8) % 3000 {
+                std::hint::spin_loop();
+            }
+        }
+        2 => {
+            FP_DELAYS.fetch_add(1, Ordering::Relaxed);
+            std::thread::yield_now();
+        }
+        3 if lvl >= 2 && (r >> 20) % 8 == 0 => {
+            FP_DELAYS.fetch_add(1, Ordering::Relaxed);
+            std::thread::sleep(Duration::from_micros(50 + (r >> 30) % 150));
+        }
+        _ => {}
+    }
+}
+
+trait ThreadIdCompat {
+    fn as_u64_compat(&self) -> u64;
+}
+impl ThreadIdCompat for std::thread::ThreadId {
+    fn as_u64_compat(&self) -> u64 {
+        let s = format!("{:?}", self);
+        s.bytes().fold(1469598103934665603u64, |h, b| (h ^ b as u64).wrapping_mul(1099511628211))
+    }
+}
+
+pub fn install_failpoints(level: u64) {
+    FP_LEVEL.store(level, Ordering::Relaxed);
+    #[cfg(rsactor_verif)]
+    {
+        rsactor::verif::set_failpoint_handler(failpoint);
+    }
+}
+
+// ---------------------------------------------------------------------------------------------
+// blocking calls at the client boundary
+// ---------------------------------------------------------------------------------------------
+#[derive(Clone, Copy, Debug, PartialEq)]
+pub enum BKind {
+    Tell,
+    Ask,
+    TellTo(u64),
+    AskTo(u64),
+    DepTell(u64),
+    DepAsk(u64),
+    ErasedTell(Option<u64>),
+    ErasedAsk(Option<u64>),
+}
+
+fn rres<T>(r: rsactor::Result<T>, f: impl FnOnce(T) -> Rep) -> Res {
+    match r {
+        Ok(v) => Res::Ok(f(v)),
+        Err(e) => {
+            let retry = e.is_retryable();
+            if retry != matches!(e, rsactor::Error::Timeout { .. }) {
+                return Res::Other(format!("is_retryable()={retry} for {e:?}"));
+            }
+            map_err(&e)
+        }
+    }
+}
+
+/// Blocking tell/ask of an `MU` message through `r`; returns (result, elapsed).
+pub fn send_blocking(sh: &Shared, ctx: Ctx, actor: usize, r: &ActorRef<SA>, kind: BKind, body: Body) -> (Res, Duration) {
+    let d = |ms: u64| Some(Duration::from_millis(ms));
+    let (ok, to) = match kind {
+        BKind::Tell => (OpKind::BTell, 0),
+        BKind::Ask => (OpKind::BAsk, 0),
+        BKind::TellTo(ms) => (OpKind::BTellTo, ms),
+        BKind::AskTo(ms) => (OpKind::BAskTo, ms),
+        BKind::DepTell(_) => (OpKind::DepTell, 0),
+        BKind::DepAsk(_) => (OpKind::DepAsk, 0),
+        BKind::ErasedTell(Some(ms)) => (OpKind::BTellTo, ms),
+        BKind::ErasedTell(None) => (OpKind::BTell, 0),
+        BKind::ErasedAsk(Some(ms)) => (OpKind::BAskTo, ms),
+        BKind::ErasedAsk(None) => (OpKind::BAsk, 0),
+    };
+    let g = CallGuard::start(sh, actor, ok, 'U', body.uid, to, ctx);
+    let t = Instant::now();
+    let res = match kind {
+        BKind::Tell => rres(r.blocking_tell(MU(body), None), |_| Rep::None),
+        BKind::Ask => rres(r.blocking_ask(MU(body), None), Rep::U),
+        BKind::TellTo(ms) => rres(r.blocking_tell(MU(body), d(ms)), |_| Rep::None),
+        BKind::AskTo(ms) => rres(r.blocking_ask(MU(body), d(ms)), Rep::U),
+        BKind::DepTell(ms) => rres(r.tell_blocking(MU(body), d(ms)), |_| Rep::None),
+        BKind::DepAsk(ms) => rres(r.ask_blocking(MU(body), d(ms)), Rep::U),
+        BKind::ErasedTell(to) => {
+            let h: Box<dyn TellHandler<MU>> = r.into();
+            rres(h.blocking_tell(MU(body), to.map(Duration::from_millis)), |_| Rep::None)
+        }
+        BKind::ErasedAsk(to) => {
+            let h: Box<dyn AskHandler<MU, u64>> = r.into();
+            rres(h.blocking_ask(MU(body), to.map(Duration::from_millis)), Rep::U)
+        }
+    };
+    let el = t.elapsed();
+    (g.end(res), el)
+}
+
+// ---------------------------------------------------------------------------------------------
+// shared accounting
+// ---------------------------------------------------------------------------------------------
+#[derive(Default)]
+pub struct Tot {
+    pub rounds: u64,
+    pub events: u64,
+    pub obl: BTreeMap<&'static str, u64>,
+    pub viol: Vec<(String, String, u64, String)>, // (clause, msg, seed, profile)
+    pub hashes: BTreeSet<u64>,
+    pub nontrivial: BTreeMap<String, u64>,
+    pub inconclusive: Vec<String>,
+    pub failures: u64,
+    pub samples: Vec<String>,
+    pub extra: BTreeMap<String, u64>,
+}
+
+pub struct RoundOut {
+    pub log: Vec<Ev>,
+    pub ids: Vec<u64>,
+    pub caps: Vec<usize>,
+    pub hung_clients: usize,
+    pub hung_actors: usize,
+    pub stalled: bool,
+}
+
+static UID: AtomicU64 = AtomicU64::new(1);
+fn uid() -> u64 {
+    UID.fetch_add(1, Ordering::Relaxed)
+}
+
+fn spin(n: u64) {
+    for _ in 0..n {
+        std::hint::spin_loop();
+    }
+}
+
+fn simple_spec(r: &mut Rng, on_run: bool) -> ActorSpec {
+    let cap = match r.below(6) {
+        0 => Some(1),
+        1 => Some(2),
+        2 => Some(3),
+        3 => Some(4),
+        4 => Some(8),
+        _ => None,
+    };
+    let mut run = vec![];
+    if on_run {
+        for _ in 0..r.range(1, 4) {
+            run.push(RunStep {
+                segs: vec![1],
+                steps: vec![],
+                out: Out::True,
+            });
+        }
+        run.push(RunStep {
+            segs: vec![],
+            steps: vec![],
+            out: if r.chance(20) { Out::Err } else { Out::False },
+        });
+    }
+    ActorSpec {
+        cap,
+        start: HookScript {
+            delay: 0,
+            steps: vec![],
+            out: Out::Ok,
+        },
+        run,
+        stop: HookScript {
+            delay: 0,
+            steps: if r.chance(20) { vec![Step::Busy(r.below(80))] } else { vec![] },
+            out: if r.chance(5) { Out::Err } else { Out::Ok },
+        },
+        in_peers: false,
+    }
+}
+
+fn msg_body(r: &mut Rng, allow_panic: bool) -> Body {
+    let mut steps = vec![];
+    match r.below(10) {
+        0..=3 => {}
+        4..=6 => steps.push(Step::Busy(r.below(60))),
+        7 => steps.push(Step::Yield),
+        8 => steps.push(Step::Sleep(1)),
+        _ => steps.push(Step::CheckIdent),
+    }
+    if allow_panic && r.chance(1) {
+        steps.push(Step::Panic);
+    }
+    Body {
+        uid: uid(),
+        flags: 0,
+        steps,
+    }
+}
+
+const LONG: u64 = 30_000; // ms: timeouts that never fire in a healthy round
+
+/// One round of general traffic: concurrent async and blocking clients, then a termination cause at a random instant.
+async fn round_general(seed: u64, hb: &Heartbeat, with_readers: bool, death_race: bool) -> RoundOut {
+    let mut r = Rng::new(seed);
+    let nact = if death_race { 1 } else { 1 + r.below(2) as usize };
+    let sh = Shared::new(nact, 1, false, false, seed);
+    let mut refs = vec![];
+    let mut watchers = vec![];
+    let mut caps = vec![];
+    for i in 0..nact {
+        let with_run = !death_race && r.chance(30);
+        let spec = simple_spec(&mut r, with_run);
+        caps.push(spec.cap.unwrap_or(32));
+        let (rf, jh) = spawn_sa(&sh, i, &spec);
+        sh.model_add(i, 1, "spawner");
+        watchers.push(tokio::spawn(watch(sh.clone(), i, jh)));
+        refs.push(rf);
+    }
+    let ids = sh.ids.lock().unwrap().clone();
+    let bucket0 = hb.now_bucket();
+    let mut clients: Vec<tokio::task::JoinHandle<()>> = vec![];
+    let ncl = if death_race { r.range(4, 8) } else { r.range(2, 6) };
+    for c in 0..ncl as usize {
+        let target = r.below(nact as u64) as usize;
+        let rf = refs[target].clone();
+        sh.model_add(target, 1, "slot-init");
+        let sh2 = sh.clone();
+        let blocking = r.chance(if death_race { 25 } else { 35 });
+        let mut cr = Rng::new(r.next());
+        let nops = if death_race { 100 } else { r.range(2, 8) };
+        let ctx = Ctx::Client(c);
+        if blocking {
+            clients.push(tokio::task::spawn_blocking(move || {
+                for _ in 0..nops {
+                    spin(cr.below(200));
+                    let kind = match cr.below(if death_race { 4 } else { 8 }) {
+                        0 => BKind::Ask,
+                        1 => BKind::AskTo(LONG),
+                        2 => BKind::ErasedAsk(None),
+                        3 => BKind::DepAsk(1),
+                        4 => BKind::Tell,
+                        5 => BKind::TellTo(LONG),
+                        6 => BKind::DepTell(1),
+                        _ => BKind::ErasedTell(Some(LONG)),
+                    };
+                    let body = msg_body(&mut cr, !death_race);
+                    let (res, _) = send_blocking(&sh2, ctx, target, &rf, kind, body);
+                    if death_race && !res.is_ok() {
+                        break;
+                    }
+                }
+                drop(rf);
+                sh2.model_add(target, -1, "drop");
+            }));
+        } else {
+            clients.push(tokio::spawn(async move {
+                let h = H::D(rf);
+                let erased = if cr.chance(30) { Some(H::from_ref_erased(h.as_ref_direct().unwrap().clone(), &sh2)) } else { None };
+                for i in 0..nops {
+                    spin(cr.below(200));
+                    if cr.chance(30) {
+                        tokio::task::yield_now().await;
+                    }
+                    let (kind, mty) = match cr.below(if death_race { 5 } else { 10 }) {
+                        0 | 1 => (SendKind::Ask, MTy::U),
+                        2 => (SendKind::AskTo(LONG), MTy::S),
+                        3 => (SendKind::Ask, MTy::R),
+                        4 => (SendKind::AskJoin, MTy::J),
+                        5 | 6 | 7 => (SendKind::Tell, MTy::U),
+                        8 => (SendKind::TellTo(LONG), MTy::N),
+                        _ => (SendKind::Tell, MTy::R),
+                    };
+                    let body = msg_body(&mut cr, !death_race);
+                    let via = match (&erased, i % 2) {
+                        (Some(e), 0) => e,
+                        _ => &h,
+                    };
+                    let res = send_via(&sh2, ctx, target, via, kind, mty, body).await;
+                    if death_race && !res.is_ok() {
+                        break;
+                    }
+                }
+                drop(erased);
+                drop(h);
+                sh2.model_add(target, -1, "drop");
+            }));
+        }
+    }
+    // metric readers
+    let stop_readers = Arc::new(AtomicBool::new(false));
+    #[allow(unused_mut)]
+    let mut readers: Vec<std::thread::JoinHandle<()>> = vec![];
+    #[cfg(feature = "f_metrics")]
+    if with_readers {
+        const NAMES: [&str; 3] = ["reader-0", "reader-1", "reader-2"];
+        for (k, name) in NAMES.iter().enumerate().take(1 + r.below(3) as usize) {
+            let rf = refs[k % nact].clone();
+            let a = k % nact;
+            let sh2 = sh.clone();
+            let stop = stop_readers.clone();
+            sh.model_add(a, 1, "slot-init");
+            readers.push(std::thread::spawn(move || {
+                let mut n = 0;
+                while !stop.load(Ordering::Relaxed) && n < 200 {
+                    crate::sim::metrics_event(&sh2, a, &rf, name);
+                    n += 1;
+                    std::thread::sleep(Duration::from_micros(100));
+                }
+                // final read after the round is over is done by the main task through its own handle
+                drop(rf);
+                sh2.model_add(a, -1, "drop");
+            }));
+        }
+    }
+    let _ = with_readers;
+    // terminator
+    spin(r.below(3000));
+    if r.chance(50) {
+        tokio::task::yield_now().await;
+    }
+    if r.chance(30) {
+        tokio::time::sleep(Duration::from_micros(r.below(600))).await;
+    }
+    let mut keep: Vec<Option<ActorRef<SA>>> = vec![];
+    for (i, rf) in refs.iter().enumerate() {
+        let h = H::D(rf.clone());
+        match r.below(if death_race { 5 } else { 4 }) {
+            0 => {
+                kill_via(&sh, Ctx::Main, i, &h);
+            }
+            1 | 2 => {
+                stop_via(&sh, Ctx::Main, i, &h).await;
+            }
+            4 => {
+                // crash it: a message whose handler panics
+                let b = Body {
+                    uid: uid(),
+                    flags: 0,
+                    steps: vec![Step::Panic],
+                };
+                send_via(&sh, Ctx::Main, i, &h, SendKind::Tell, MTy::U, b).await;
+            }
+            _ => {}
+        }
+        drop(h);
+        keep.push(None);
+    }
+    // retain one strong handle through the end (post-mortem metric reads) only for actors that end regardless of references
+    for (i, rf) in refs.iter().enumerate() {
+        let x_has_cause = sh.log.snapshot().iter().any(|e| matches!(&e.k, K::CallStart { actor, kind: OpKind::Kill | OpKind::Stop, .. } if *actor == i));
+        if with_readers && x_has_cause {
+            keep[i] = Some(rf.clone());
+            sh.model_add(i, 1, "survivor");
+        }
+    }
+    for (i, rf) in refs.drain(..).enumerate() {
+        drop(rf);
+        sh.model_add(i, -1, "drop");
+    }
+    // join clients under a watchdog
+    let mut hung_clients = 0;
+    for c in clients {
+        let mut c = c;
+        if tokio::time::timeout(Duration::from_secs(10), &mut c).await.is_err() {
+            hung_clients += 1;
+            c.abort();
+        }
+    }
+    let mut hung_actors = 0;
+    for w in watchers {
+        let mut w = w;
+        if tokio::time::timeout(Duration::from_secs(10), &mut w).await.is_err() {
+            hung_actors += 1;
+            w.abort();
+        }
+    }
+    stop_readers.store(true, Ordering::Relaxed);
+    for t in readers {
+        let _ = tokio::task::spawn_blocking(move || t.join()).await;
+    }
+    #[cfg(feature = "f_metrics")]
+    for (i, k) in keep.iter().enumerate() {
+        if let Some(rf) = k {
+            if hung_actors == 0 {
+                crate::sim::metrics_event(&sh, i, rf, "survivor-strong");
+                let w = ActorRef::downgrade(rf);
+                if let Some(up) = w.upgrade() {
+                    crate::sim::metrics_event(&sh, i, &up, "weak-upgraded");
+                }
+            }
+        }
+    }
+    for (i, k) in keep.drain(..).enumerate() {
+        if k.is_some() {
+            drop(k);
+            sh.model_add(i, -1, "drop");
+        }
+    }
+    let stalled = hb.max_late_since(bucket0) > STALL_US;
+    let log = sh.log.snapshot();
+    for id in ids.iter() {
+        reg_remove(*id);
+    }
+    RoundOut {
+        log,
+        ids,
+        caps,
+        hung_clients,
+        hung_actors,
+        stalled,
+    }
+}
+
+impl H {
+    pub fn from_ref_erased(r: ActorRef<SA>, sh: &Shared) -> H {
+        H::E(Box::new(ES::from_ref(r, sh)))
+    }
+}
+
+fn mt_meta(out: &RoundOut, tainted: bool) -> Meta {
+    Meta {
+        mode: Mode::Mt,
+        caps: out.caps.clone(),
+        ids: out.ids.clone(),
+        dl_delta: None,
+        deadlock_feature: false,
+        metrics_feature: cfg!(feature = "f_metrics"),
+        graph_hook: false,
+        tainted,
+    }
+}
+
+fn absorb(tot: &Mutex<Tot>, prop: &str, profile: &str, seed: u64, out: &RoundOut, tainted: &AtomicBool) {
+    let mut t = tot.lock().unwrap();
+    t.rounds += 1;
+    t.events += out.log.len() as u64;
+    if out.stalled && (out.hung_clients > 0 || out.hung_actors > 0) {
+        t.inconclusive.push(format!("round {seed}: watchdog fired while the machine was stalled (heartbeat late > {} ms)", STALL_US / 1000));
+        tainted.store(true, Ordering::Relaxed);
+        return;
+    }
+    if out.hung_clients > 0 || out.hung_actors > 0 {
+        tainted.store(true, Ordering::Relaxed);
+    }
+    let meta = mt_meta(out, tainted.load(Ordering::Relaxed));
+    let f = check::check_all(&out.log, &meta);
+    let mut props_here = BTreeSet::new();
+    for (k, v) in &f.obl {
+        *t.obl.entry(k).or_default() += v;
+        props_here.insert(k[..3].to_string());
+    }
+    if out.log.iter().any(|e| matches!(&e.k, K::CallStart { kind, .. } if kind.blocking())) {
+        props_here.insert("C17".to_string());
+    }
+    let tr = crate::trace::canon_trace(&out.log, &out.ids);
+    // MT traces contain wall-clock stamps; hash only the order-insensitive projection (kinds and results)
+    let mut proj: Vec<String> = tr.iter().map(|s| s.split_once(' ').map(|x| x.1.to_string()).unwrap_or_default()).collect();
+    proj.retain(|s| !s.starts_with("RefOp") && !s.starts_with("Sample"));
+    let h = crate::trace::hash_trace(&proj);
+    for p in &props_here {
+        *t.nontrivial.entry(p.clone()).or_default() += 1;
+    }
+    if props_here.contains(prop) || prop == "all" {
+        t.hashes.insert(h);
+    }
+    t.failures += out
+        .log
+        .iter()
+        .filter(|e| matches!(&e.k, K::CallEnd { res, .. } if matches!(res, Res::Send | Res::Timeout | Res::Receive)))
+        .count() as u64;
+    for v in &f.viol {
+        let p = &v.clause[..3];
+        let blocking_related = v.msg.contains("BTell") || v.msg.contains("BAsk") || v.msg.contains("DepTell") || v.msg.contains("DepAsk") || v.msg.contains("blocking");
+        if prop == "all" || p == prop || (prop == "C17" && blocking_related) {
+            if t.viol.len() < 50 {
+                let clause = if prop == "C17" && p != "C17" { format!("C17.via.{}", v.clause) } else { v.clause.to_string() };
+                t.viol.push((clause, v.msg.clone(), seed, profile.to_string()));
+            }
+        }
+    }
+    if t.samples.len() < 2 && props_here.contains(prop) {
+        let evs: Vec<String> = crate::trace::render(&out.log).into_iter().take(30).collect();
+        t.samples.push(
+            JObj::new()
+                .s("engine", "mt")
+                .s("profile", profile)
+                .n("seed", seed)
+                .n("events", out.log.len() as u64)
+                .raw("first_events", &jarr_str(&evs))
+                .build(),
+        );
+    }
+}
+
+// ---------------------------------------------------------------------------------------------
+// blocking profile (C17, blocking side of C10 and C13)
+// ---------------------------------------------------------------------------------------------
+fn round_blocking(rt: &tokio::runtime::Runtime, seed: u64, hb: &Heartbeat, tot: &Mutex<Tot>, prop: &str) {
+    let mut r = Rng::new(seed);
+    let sh = Shared::new(1, 1, false, false, seed);
+    let cap = 1 + r.below(3) as usize;
+    let spec = ActorSpec {
+        cap: Some(cap),
+        start: HookScript::default(),
+        run: vec![],
+        stop: HookScript::default(),
+        in_peers: false,
+    };
+    let (a, jh) = {
+        let _g = rt.enter();
+        spawn_sa(&sh, 0, &spec)
+    };
+    let watcher = rt.spawn(watch(sh.clone(), 0, jh));
+    let ids = sh.ids.lock().unwrap().clone();
+    let bucket0 = hb.now_bucket();
+    let mut v: Vec<(String, String)> = vec![];
+    let mut o: BTreeMap<&'static str, u64> = BTreeMap::new();
+    // 1. hold the actor in a gated handler and fill the mailbox
+    let gate_uid = uid();
+    let (res, _) = send_blocking(&sh, Ctx::Main, 0, &a, BKind::Tell, Body { uid: gate_uid, flags: 0, steps: vec![Step::Gate(0)] });
+    assert!(res.is_ok());
+    let t = Instant::now();
+    while !sh.log.snapshot().iter().any(|e| matches!(&e.k, K::HEnter { uid, .. } if *uid == gate_uid)) {
+        std::thread::yield_now();
+        if t.elapsed() > Duration::from_secs(10) {
+            break;
+        }
+    }
+    for _ in 0..cap {
+        send_blocking(&sh, Ctx::Main, 0, &a, BKind::Tell, Body::plain(uid()));
+    }
+    // 2. timed blocking calls against the full mailbox: must time out, never early, and return by deadline + slack
+    let to_ms = 4 + 2 * r.below(16);
+    let mut ths = vec![];
+    for k in 0..4u64 {
+        let (a, sh2) = (a.clone(), sh.clone());
+        ths.push(std::thread::spawn(move || {
+            let kind = match k {
+                0 => BKind::TellTo(to_ms),
+                1 => BKind::AskTo(to_ms),
+                2 => BKind::ErasedTell(Some(to_ms)),
+                _ => BKind::ErasedAsk(Some(to_ms)),
+            };
+            let (res, el) = send_blocking(&sh2, Ctx::Client(k as usize), 0, &a, kind, Body::plain(uid()));
+            (kind, res, el)
+        }));
+    }
+    // 3. deprecated aliases ignore their timeout: they must still be waiting after the others timed out, and succeed once the gate opens
+    let dep_tell = {
+        let (a, sh2) = (a.clone(), sh.clone());
+        std::thread::spawn(move || send_blocking(&sh2, Ctx::Client(10), 0, &a, BKind::DepTell(1), Body::plain(uid())))
+    };
+    // 4. the timeout variants may be called from inside a runtime worker
+    let inside = {
+        let (a, sh2) = (a.clone(), sh.clone());
+        rt.spawn(async move { send_blocking(&sh2, Ctx::Client(11), 0, &a, BKind::TellTo(3), Body::plain(uid())) })
+    };
+    let inside2 = {
+        let (a, sh2) = (a.clone(), sh.clone());
+        rt.spawn(async move { send_blocking(&sh2, Ctx::Client(12), 0, &a, BKind::AskTo(3), Body::plain(uid())) })
+    };
+    for t in ths {
+        let (kind, res, el) = t.join().unwrap();
+        *o.entry("C17.deadline").or_default() += 1;
+        if res != Res::Timeout {
+            v.push(("C17.deadline".into(), format!("{kind:?} against a full mailbox held by a gated handler returned {res:?} instead of Timeout")));
+        } else {
+            if el < Duration::from_millis(to_ms) {
+                v.push(("C10.early".into(), format!("{kind:?} returned Timeout after {el:?}, before its {to_ms} ms timeout elapsed")));
+            }
+            if el > Duration::from_millis(to_ms + 2000) && hb.max_late_since(bucket0) < STALL_US {
+                v.push(("C17.deadline".into(), format!("{kind:?} with a {to_ms} ms timeout returned only after {el:?}")));
+            }
+        }
+    }
+    for (name, h) in [("blocking_tell", inside), ("blocking_ask", inside2)] {
+        *o.entry("C17.inside_runtime").or_default() += 1;
+        match rt.block_on(h) {
+            Ok((res, _)) => {
+                if res != Res::Timeout {
+                    v.push(("C17.inside_runtime".into(), format!("{name}(Some(t)) from a runtime worker against a full mailbox returned {res:?}")));
+                }
+            }
+            Err(e) => v.push(("C17.inside_runtime".into(), format!("{name}(Some(t)) called from inside a runtime worker panicked: {e}"))),
+        }
+    }
+    std::thread::sleep(Duration::from_millis(2));
+    let dep_done_early = dep_tell.is_finished();
+    *o.entry("C17.deprecated_ignores_timeout").or_default() += 1;
+    if dep_done_early {
+        v.push(("C17.deprecated_ignores_timeout".into(), "tell_blocking(Some(1 ms)) returned while the mailbox was still full".into()));
+    }
+    // 5. open the gate: everything accepted is handled in order; the deprecated call succeeds
+    sh.gates[0].add_permits(1 << 20);
+    let (dres, _) = dep_tell.join().unwrap();
+    if !dres.is_ok() {
+        v.push(("C17.deprecated_ignores_timeout".into(), format!("tell_blocking(Some(1 ms)) returned {dres:?} instead of waiting for a free slot")));
+    }
+    // 6. per-thread program order and reply integrity with mixed blocking calls
+    let mut ths = vec![];
+    for k in 0..3u64 {
+        let (a, sh2) = (a.clone(), sh.clone());
+        let mut cr = Rng::new(seed ^ k);
+        ths.push(std::thread::spawn(move || {
+            for _ in 0..6 {
+                let kind = match cr.below(6) {
+                    0 => BKind::Tell,
+                    1 => BKind::Ask,
+                    2 => BKind::TellTo(LONG),
+                    3 => BKind::AskTo(LONG),
+                    4 => BKind::DepAsk(1),
+                    _ => BKind::ErasedAsk(None),
+                };
+                send_blocking(&sh2, Ctx::Client(20 + k as usize), 0, &a, kind, msg_body(&mut cr, false));
+            }
+        }));
+    }
+    let async_sender = {
+        let (a, sh2) = (a.clone(), sh.clone());
+        rt.spawn(async move {
+            let h = H::D(a);
+            for _ in 0..6 {
+                send_via(&sh2, Ctx::Client(30), 0, &h, SendKind::Ask, MTy::U, Body::plain(uid())).await;
+            }
+        })
+    };
+    for t in ths {
+        t.join().unwrap();
+    }
+    let _ = rt.block_on(async_sender);
+    // 7. stop, then blocking calls on the dead actor fail promptly with Send (also with a timeout)
+    rt.block_on(async {
+        let h = H::D(a.clone());
+        if r.chance(50) {
+            stop_via(&sh, Ctx::Main, 0, &h).await;
+        } else {
+            kill_via(&sh, Ctx::Main, 0, &h);
+        }
+    });
+    let mut w = watcher;
+    let joined = rt.block_on(async { tokio::time::timeout(Duration::from_secs(10), &mut w).await.is_ok() });
+    let mut hung_actors = 0;
+    if !joined {
+        hung_actors = 1;
+    } else {
+        for kind in [BKind::Tell, BKind::Ask, BKind::TellTo(50), BKind::AskTo(50), BKind::DepTell(1), BKind::ErasedAsk(Some(50))] {
+            let (res, el) = send_blocking(&sh, Ctx::Main, 0, &a, kind, Body::plain(uid()));
+            *o.entry("C17.dead_actor").or_default() += 1;
+            if res != Res::Send {
+                v.push(("C17.dead_actor".into(), format!("{kind:?} on an actor whose JoinHandle had resolved returned {res:?}")));
+            }
+            if el > Duration::from_millis(2000) && hb.max_late_since(bucket0) < STALL_US {
+                v.push(("C10.prompt_failure".into(), format!("{kind:?} on a dead actor took {el:?} to fail")));
+            }
+        }
+    }
+    drop(a);
+    let out = RoundOut {
+        log: sh.log.snapshot(),
+        ids: ids.clone(),
+        caps: vec![cap],
+        hung_clients: 0,
+        hung_actors,
+        stalled: hb.max_late_since(bucket0) > STALL_US,
+    };
+    for id in ids.iter() {
+        reg_remove(*id);
+    }
+    let tainted = AtomicBool::new(false);
+    absorb(tot, prop, "blocking", seed, &out, &tainted);
+    let mut t = tot.lock().unwrap();
+    for (k, n) in o {
+        *t.obl.entry(k).or_default() += n;
+    }
+    for (c, m) in v {
+        let p = &c[..3];
+        if prop == "all" || prop == p || prop == "C17" {
+            t.viol.push((c, m, seed, "blocking".to_string()));
+        }
+    }
+}
+
+// ---------------------------------------------------------------------------------------------
+// spawn storm (C11 id uniqueness under parallel spawns from several threads and runtimes)
+// ---------------------------------------------------------------------------------------------
+mod storm {
+    use rsactor::{Actor, ActorRef};
+    pub struct T1;
+    pub struct T2(pub u8);
+    pub struct T3;
+    impl Actor for T1 {
+        type Args = ();
+        type Error = String;
+        async fn on_start(_: (), _: &ActorRef<Self>) -> Result<Self, String> {
+            Ok(T1)
+        }
+    }
+    impl Actor for T2 {
+        type Args = u8;
+        type Error = std::convert::Infallible;
+        async fn on_start(a: u8, _: &ActorRef<Self>) -> Result<Self, Self::Error> {
+            Ok(T2(a))
+        }
+    }
+    impl Actor for T3 {
+        type Args = ();
+        type Error = String;
+        async fn on_start(_: (), _: &ActorRef<Self>) -> Result<Self, String> {
+            Err("no".into())
+        }
+    }
+}
+
+fn spawn_storm(threads: usize, per_thread: usize, tot: &Mutex<Tot>) {
+    use storm::*;
+    let rts: Vec<tokio::runtime::Runtime> = (0..2)
+        .map(|_| tokio::runtime::Builder::new_multi_thread().worker_threads(4).enable_time().build().unwrap())
+        .collect();
+    let barrier = Arc::new(std::sync::Barrier::new(threads));
+    let all: Arc<Mutex<Vec<(u64, &'static str)>>> = Arc::new(Mutex::new(Vec::new()));
+    let mut ths = vec![];
+    for th in 0..threads {
+        let h = rts[th % 2].handle().clone();
+        let (barrier, all) = (barrier.clone(), all.clone());
+        ths.push(std::thread::spawn(move || {
+            let _g = h.enter();
+            let mut local = Vec::with_capacity(per_thread);
+            barrier.wait();
+            for i in 0..per_thread {
+                match (i + th) % 3 {
+                    0 => {
+                        let (r, _j) = rsactor::spawn::<T1>(());
+                        let id = r.identity();
+                        local.push((id.id, id.name()));
+                    }
+                    1 => {
+                        let (r, _j) = rsactor::spawn_with_mailbox_capacity::<T2>(1, 1);
+                        let id = r.identity();
+                        local.push((id.id, id.name()));
+                    }
+                    _ => {
+                        let (r, _j) = rsactor::spawn::<T3>(());
+                        let id = r.identity();
+                        local.push((id.id, id.name()));
+                    }
+                }
+                if i % 64 == 0 {
+                    barrier.wait();
+                }
+            }
+            all.lock().unwrap().extend(local);
+        }));
+    }
+    for t in ths {
+        t.join().unwrap();
+    }
+    let v = all.lock().unwrap();
+    let set: BTreeSet<u64> = v.iter().map(|x| x.0).collect();
+    let mut t = tot.lock().unwrap();
+    t.rounds += 1;
+    *t.obl.entry("C11.unique").or_default() += v.len() as u64;
+    *t.nontrivial.entry("C11".to_string()).or_default() += 1;
+    t.hashes.insert(v.len() as u64 ^ 0x51);
+    t.hashes.insert(threads as u64 ^ 0x52);
+    *t.extra.entry("spawn_storm_spawns".into()).or_default() += v.len() as u64;
+    *t.extra.entry("spawn_storm_distinct_ids".into()).or_default() += set.len() as u64;
+    if set.len() != v.len() {
+        t.viol.push((
+            "C11.unique".into(),
+            format!("{} of {} actors spawned concurrently from {} threads share an id with another actor", v.len() - set.len(), v.len(), threads),
+            threads as u64,
+            "spawnstorm".into(),
+        ));
+    }
+    if v.iter().any(|x| !(x.1.ends_with("T1") || x.1.ends_with("T2") || x.1.ends_with("T3"))) {
+        t.viol.push(("C11.identity".into(), "identity type name does not name the actor type".into(), 0, "spawnstorm".into()));
+    }
+    if t.samples.len() < 3 {
+        t.samples.push(
+            JObj::new()
+                .s("engine", "mt")
+                .s("profile", "spawnstorm")
+                .n("threads", threads as u64)
+                .n("spawns", v.len() as u64)
+                .n("distinct_ids", set.len() as u64)
+                .build(),
+        );
+    }
+    drop(t);
+    drop(v);
+    for rt in rts {
+        rt.shutdown_background();
+    }
+}
+
+// ---------------------------------------------------------------------------------------------
+// tight death race (C03): askers hammer an actor that is ended at a random instant. No shared log on
+// the hot path: every asker publishes its current call in its own slot.
+// ---------------------------------------------------------------------------------------------
+mod dr {
+    use rsactor::{Actor, ActorRef, ActorWeak, Message};
+    pub struct A {
+        pub run_err_after: Option<u32>,
+        pub polls: u32,
+    }
+    pub struct Ping(pub u64);
+    pub struct Boom;
+    impl Actor for A {
+        type Args = Option<u32>;
+        type Error = String;
+        async fn on_start(a: Option<u32>, _: &ActorRef<Self>) -> Result<Self, String> {
+            Ok(A { run_err_after: a, polls: 0 })
+        }
+        async fn on_run(&mut self, _: &ActorWeak<Self>) -> Result<bool, String> {
+            match self.run_err_after {
+                None => Ok(false),
+                Some(k) => {
+                    tokio::task::yield_now().await;
+                    self.polls += 1;
+                    if self.polls >= k {
+                        Err("scripted on_run error".into())
+                    } else {
+                        Ok(true)
+                    }
+                }
+            }
+        }
+    }
+    impl Message<Ping> for A {
+        type Reply = u64;
+        async fn handle(&mut self, m: Ping, _: &ActorRef<Self>) -> u64 {
+            m.0.wrapping_mul(3).wrapping_add(1)
+        }
+    }
+    impl Message<Boom> for A {
+        type Reply = ();
+        async fn handle(&mut self, _: Boom, _: &ActorRef<Self>) {
+            panic!("scripted handler panic (death race)");
+        }
+    }
+}
+
+const SLOT_IDLE: u64 = 0;
+
+async fn round_tight(seed: u64, hb: &Heartbeat, tot: &Mutex<Tot>) {
+    use dr::*;
+    let mut r = Rng::new(seed);
+    let cap = 1 + r.below(3) as usize;
+    let cause = r.below(5); // 0 kill, 1 stop, 2 handler panic, 3 on_run error, 4 kill after stop
+    let run_err = if cause == 3 { Some(1 + r.below(40) as u32) } else { None };
+    let (a, jh) = rsactor::spawn_with_mailbox_capacity::<A>(run_err, cap);
+    let weak = ActorRef::downgrade(&a);
+    let naskers = r.range(4, 8) as usize;
+    let slots: Arc<Vec<AtomicU64>> = Arc::new((0..naskers).map(|_| AtomicU64::new(SLOT_IDLE)).collect());
+    let oks = Arc::new(AtomicU64::new(0));
+    let bad_reply = Arc::new(AtomicU64::new(0));
+    let mut hs = vec![];
+    let mut kinds = vec![];
+    for i in 0..naskers {
+        let kind = match r.below(20) {
+            0..=6 => 0,
+            7..=9 => 1,
+            10..=12 => 2,
+            13..=15 => 3,
+            16..=18 => 4,
+            _ => 5,
+        };
+        kinds.push(kind);
+        let (a, slots, oks, bad) = (a.clone(), slots.clone(), oks.clone(), bad_reply.clone());
+        let yields = r.chance(50);
+        let fut_body = move |n: u64, v: u64| {
+            if v != n.wrapping_mul(3).wrapping_add(1) {
+                bad.fetch_add(1, Ordering::Relaxed);
+            }
+        };
+        if kind >= 4 {
+            hs.push(tokio::task::spawn_blocking(move || {
+                let mut n = 1u64;
+                loop {
+                    slots[i].store(n, Ordering::SeqCst);
+                    let res = if kind == 4 { a.blocking_ask(Ping(n), None) } else { a.blocking_ask(Ping(n), Some(Duration::from_secs(30))) };
+                    match res {
+                        Ok(v) => fut_body(n, v),
+                        Err(_) => break,
+                    }
+                    n += 1;
+                }
+                slots[i].store(SLOT_IDLE, Ordering::SeqCst);
+                oks.fetch_add(n - 1, Ordering::Relaxed);
+            }));
+        } else {
+            hs.push(tokio::spawn(async move {
+                let erased: Box<dyn AskHandler<Ping, u64>> = (&a).into();
+                let mut n = 1u64;
+                loop {
+                    slots[i].store(n, Ordering::SeqCst);
+                    let res = match kind {
+                        0 => a.ask(Ping(n)).await,
+                        1 => a.ask_with_timeout(Ping(n), Duration::from_secs(30)).await,
+                        2 => erased.ask(Ping(n)).await,
+                        _ => {
+                            let _ = a.tell(Ping(n)).await;
+                            a.ask(Ping(n)).await
+                        }
+                    };
+                    match res {
+                        Ok(v) => fut_body(n, v),
+                        Err(_) => break,
+                    }
+                    n += 1;
+                    if yields {
+                        tokio::task::yield_now().await;
+                    }
+                }
+                slots[i].store(SLOT_IDLE, Ordering::SeqCst);
+                oks.fetch_add(n - 1, Ordering::Relaxed);
+            }));
+        }
+    }
+    spin(r.below(4000));
+    if r.chance(50) {
+        tokio::task::yield_now().await;
+    }
+    if r.chance(10) {
+        tokio::time::sleep(Duration::from_micros(r.below(300))).await;
+    }
+    match cause {
+        0 => {
+            let _ = a.kill();
+        }
+        1 => {
+            let _ = a.stop().await;
+        }
+        2 => {
+            let _ = a.tell(Boom).await;
+        }
+        3 => {}
+        _ => {
+            let _ = a.stop().await;
+            let _ = a.kill();
+        }
+    }
+    drop(a);
+    let bucket0 = hb.now_bucket();
+    let mut jh = jh;
+    let actor_done = tokio::time::timeout(Duration::from_secs(10), &mut jh).await.is_ok();
+    let mut hung = vec![];
+    for (i, h) in hs.into_iter().enumerate() {
+        let mut h = h;
+        if tokio::time::timeout(Duration::from_secs(10), &mut h).await.is_err() {
+            hung.push((i, kinds[i], slots[i].load(Ordering::SeqCst)));
+            h.abort();
+        }
+    }
+    let stalled = hb.max_late_since(bucket0) > STALL_US;
+    {
+        let mut t = tot.lock().unwrap();
+        t.rounds += 1;
+        *t.obl.entry("C03.complete").or_default() += naskers as u64;
+        *t.obl.entry("C03.integrity").or_default() += oks.load(Ordering::Relaxed);
+        *t.nontrivial.entry("C03".into()).or_default() += 1;
+        t.hashes.insert(mix(cause * 1000 + cap as u64 * 100 + naskers as u64, kinds.iter().fold(0u64, |h, k| h * 7 + k)));
+        if bad_reply.load(Ordering::Relaxed) > 0 {
+            t.viol.push(("C03.integrity".into(), format!("{} replies did not belong to their request (death-race round, cause {cause})", bad_reply.load(Ordering::Relaxed)), seed, "tightrace".into()));
+        }
+        if (!hung.is_empty() || !actor_done) && stalled {
+            t.inconclusive.push(format!("tightrace round {seed}: watchdog fired while the machine was stalled"));
+            return;
+        }
+        if !actor_done {
+            t.viol.push(("C07.resolves".into(), format!("actor did not end within 10 s after cause {cause} (0 kill,1 stop,2 handler panic,3 on_run error,4 stop+kill)"), seed, "tightrace".into()));
+        }
+    }
+    if !hung.is_empty() {
+        tokio::time::sleep(Duration::from_millis(50)).await;
+        let stranded = weak.upgrade().is_some();
+        let mut t = tot.lock().unwrap();
+        let names = ["ask", "ask_with_timeout(30s)", "erased ask", "tell+ask", "blocking_ask(None)", "blocking_ask(Some 30s)"];
+        for (i, k, n) in hung {
+            t.viol.push((
+                "C03.complete".into(),
+                format!("[pending-ask] asker {i} ({}) is still waiting for request #{n} 10 s after the actor's JoinHandle resolved (cause {cause}: 0 kill,1 stop,2 handler panic,3 on_run error,4 stop+kill; capacity {cap}); after aborting the askers and dropping every handle ActorWeak::upgrade().is_some() = {stranded}", names[k as usize]),
+                seed,
+                "tightrace".into(),
+            ));
+        }
+    }
+}
+
+// ---------------------------------------------------------------------------------------------
+pub fn cmd_mt(a: &Args) -> i32 {
+    let prop = a.str("prop", "all");
+    let profiles: Vec<String> = a.str("profiles", "general").split(',').map(|s| s.to_string()).collect();
+    let base = a.u64("seed", 1);
+    let secs = a.u64("secs", 5);
+    let workers_opt = a.u64("workers", 0);
+    let lanes = a.u64("lanes", 8) as usize;
+    let fp = a.u64("failpoints", 0);
+    install_panic_hook();
+    install_subscriber();
+    install_failpoints(fp);
+    let hb = Arc::new(Heartbeat::start());
+    let tot = Arc::new(Mutex::new(Tot::default()));
+    #[cfg(feature = "f_testutils")]
+    let dl0 = rsactor::dead_letter_count();
+    let t0 = Instant::now();
+    let tainted = Arc::new(AtomicBool::new(false));
+    let per_profile = Duration::from_secs_f64(secs as f64 / profiles.len() as f64);
+    let mut worker_counts = vec![];
+    for (pi, prof) in profiles.iter().enumerate() {
+        let tp = Instant::now();
+        match prof.as_str() {
+            "general" | "deathrace" | "readers" => {
+                // rotate worker counts: under- and over-subscription
+                let wc: Vec<usize> = if workers_opt > 0 { vec![workers_opt as usize] } else { vec![4, 16, 32] };
+                let slice = per_profile / wc.len() as u32;
+                for (wi, w) in wc.iter().enumerate() {
+                    worker_counts.push(*w);
+                    let rt = tokio::runtime::Builder::new_multi_thread()
+                        .worker_threads(*w)
+                        .max_blocking_threads(512)
+                        .enable_time()
+                        .build()
+                        .unwrap();
+                    let tw = Instant::now();
+                    rt.block_on(async {
+                        let mut hs = vec![];
+                        for lane in 0..lanes {
+                            let (tot, hb, tainted, prop, prof) = (tot.clone(), hb.clone(), tainted.clone(), prop.clone(), prof.clone());
+                            hs.push(tokio::spawn(async move {
+                                let mut n = 0u64;
+                                while tw.elapsed() < slice {
+                                    n += 1;
+                                    let seed = mix(base, ((pi as u64) << 56) ^ ((wi as u64) << 48) ^ ((lane as u64) << 40) ^ n);
+                                    let out = round_general(seed, &hb, prof == "readers" || (prof == "general" && n % 4 == 0), prof == "deathrace").await;
+                                    absorb(&tot, &prop, &prof, seed, &out, &tainted);
+                                    if tot.lock().unwrap().viol.len() > 20 {
+                                        break;
+                                    }
+                                }
+                            }));
+                        }
+                        for h in hs {
+                            let _ = h.await;
+                        }
+                    });
+                    rt.shutdown_timeout(Duration::from_secs(2));
+                }
+            }
+            "tightrace" => {
+                let wc: Vec<usize> = if workers_opt > 0 { vec![workers_opt as usize] } else { vec![16, 32, 8] };
+                let slice = per_profile / wc.len() as u32;
+                for (wi, w) in wc.iter().enumerate() {
+                    worker_counts.push(*w);
+                    let rt = tokio::runtime::Builder::new_multi_thread().worker_threads(*w).max_blocking_threads(512).enable_time().build().unwrap();
+                    let tw = Instant::now();
+                    let nl = (*w / 6).max(2);
+                    rt.block_on(async {
+                        let mut hs = vec![];
+                        for lane in 0..nl {
+                            let (tot, hb) = (tot.clone(), hb.clone());
+                            hs.push(tokio::spawn(async move {
+                                let mut n = 0u64;
+                                while tw.elapsed() < slice {
+                                    n += 1;
+                                    let seed = mix(base, ((pi as u64) << 56) ^ ((wi as u64) << 48) ^ ((lane as u64) << 40) ^ n);
+                                    round_tight(seed, &hb, &tot).await;
+                                    if !tot.lock().unwrap().viol.is_empty() {
+                                        break;
+                                    }
+                                }
+                            }));
+                        }
+                        for h in hs {
+                            let _ = h.await;
+                        }
+                    });
+                    rt.shutdown_timeout(Duration::from_secs(2));
+                }
+            }
+            "blocking" => {
+                let rt = tokio::runtime::Builder::new_multi_thread().worker_threads(8).max_blocking_threads(256).enable_time().build().unwrap();
+                let mut n = 0u64;
+                while tp.elapsed() < per_profile {
+                    n += 1;
+                    let seed = mix(base, ((pi as u64) << 56) ^ n);
+                    round_blocking(&rt, seed, &hb, &tot, &prop);
+                    if tot.lock().unwrap().viol.len() > 20 {
+                        break;
+                    }
+                }
+                rt.shutdown_timeout(Duration::from_secs(2));
+            }
+            "spawnstorm" => {
+                let per = a.u64("spawns", 20000) as usize;
+                let mut n = 0;
+                while n == 0 || tp.elapsed() < per_profile {
+                    n += 1;
+                    spawn_storm(16, per / 16, &tot);
+                    spawn_storm(3, per / 16, &tot);
+                    if tot.lock().unwrap().viol.len() > 5 {
+                        break;
+                    }
+                }
+            }
+            other => {
+                eprintln!("unknown mt profile {other}");
+                return 2;
+            }
+        }
+    }
+    // process-wide dead-letter counter: failures observed == counter delta (only if nothing was stranded/aborted)
+    let mut t = tot.lock().unwrap();
+    #[cfg(feature = "f_testutils")]
+    {
+        let d = rsactor::dead_letter_count() - dl0;
+        if !tainted.load(Ordering::Relaxed) && profiles.iter().all(|p| p != "spawnstorm" && p != "tightrace") {
+            *t.obl.entry("C13.counter").or_default() += 1;
+            t.extra.insert("dead_letter_count_delta".into(), d);
+            let fl = t.failures;
+            t.extra.insert("failed_deliveries".into(), fl);
+            if d != t.failures && (prop == "all" || prop == "C13" || prop == "C17") {
+                let f = t.failures;
+                t.viol.push(("C13.counter".into(), format!("dead_letter_count() advanced by {d} during the run but {f} deliveries failed (concurrent failing senders)"), base, "process".into()));
+            }
+        }
+    }
+    let unexpected: Vec<String> = PANICS.lock().unwrap().iter().take(5).map(|(t, m)| format!("{t}: {m}")).collect();
+    if !unexpected.is_empty() && (prop == "C17" || prop == "all") {
+        t.viol.push(("C17.no_panic".into(), format!("unexpected panic(s) during the run: {:?}", unexpected), base, "process".into()));
+    }
+    let oj: Vec<String> = t.obl.iter().map(|(k, v)| format!("{}:{}", json_str(k), v)).collect();
+    let nj: Vec<String> = t.nontrivial.iter().map(|(k, v)| format!("{}:{}", json_str(k), v)).collect();
+    let vj: Vec<String> = t
+        .viol
+        .iter()
+        .map(|(c, m, s, p)| JObj::new().s("prop", &c[..3]).s("clause", c).s("msg", m).s("profile", p).n("seed", *s).n("pert", 0).b("erased", false).build())
+        .collect();
+    let hj: Vec<String> = t.hashes.iter().map(|h| h.to_string()).collect();
+    let ej: Vec<String> = t.extra.iter().map(|(k, v)| format!("{}:{}", json_str(k), v)).collect();
+    let mut extra = ej;
+    extra.push(format!("\"heartbeat_max_late_us\":{}", hb.overall()));
+    extra.push(format!("\"failpoint_hits\":{}", FP_HITS.load(Ordering::Relaxed)));
+    extra.push(format!("\"failpoint_delays\":{}", FP_DELAYS.load(Ordering::Relaxed)));
+    extra.push(format!("\"worker_counts\":{}", json_str(&format!("{:?}", worker_counts))));
+    println!(
+        "{}",
+        JObj::new()
+            .s("engine", "mt")
+            .s("features", &crate::features_label())
+            .n("scenarios", t.rounds)
+            .n("events", t.events)
+            .raw("obl", &format!("{{{}}}", oj.join(",")))
+            .raw("nontrivial", &format!("{{{}}}", nj.join(",")))
+            .raw("hashes", &jarr(&hj))
+            .raw("viol", &jarr(&vj))
+            .raw("samples", &jarr(&t.samples))
+            .raw("inconclusive", &jarr_str(&t.inconclusive.iter().take(5).cloned().collect::<Vec<_>>()))
+            .raw("extra", &format!("{{{}}}", extra.join(",")))
+            .f("wall_s", t0.elapsed().as_secs_f64())
+            .build()
+    );
+    if t.viol.is_empty() {
+        0
+    } else {
+        1
+    }
 }
